@@ -42,6 +42,7 @@ func (in *Interp) mkStringSlice(ss []string) Slice {
 func registerHost(in *Interp) {
 	H := in.Host
 	defer registerConc(in)
+	defer registerHashLib(in)
 	opaqueStr := func(tag string) HostFn {
 		return func(in *Interp, a []Value, _ ssa.CallInstruction) Value { return "<" + tag + "@" + in.where() + ">" }
 	}
@@ -447,6 +448,61 @@ func registerHost(in *Interp) {
 		if symbolic {
 			// equality atoms carry no order: the call is summarised as "some permutation, in place";
 			// the harness checks that what is emitted is the slice that was sorted last (vWasSorted)
+			// equality atoms have a rank (rank.go): the result is n fresh atoms, constrained to be the
+			// sorted permutation of the elements (no forking); other symbolic strings keep the old summary
+			var elems []*sym.Term
+			atoms := s.Len <= 24 && in.Params["ranksort"] != nil
+			for i := 0; i < s.Len && atoms; i++ {
+				switch x := in.load(s.Arr.Kids[s.Off+i]).(type) {
+				case string:
+					elems = append(elems, in.atomTerm(x))
+				case *SymStr:
+					if x.Atom == nil {
+						atoms = false
+					} else {
+						elems = append(elems, x.Atom)
+					}
+				default:
+					atoms = false
+				}
+			}
+			if atoms && s.Len > 0 {
+				in.sortSeq++
+				res := make([]*sym.Term, s.Len)
+				for i := range res {
+					n := fmt.Sprintf("sorted#%d.%d", in.sortSeq, i)
+					res[i] = in.B.Var(n, sym.BVSort(32))
+					in.atomVars[n] = true
+				}
+				count := func(xs []*sym.Term, e *sym.Term) *sym.Term {
+					acc := in.B.Const(8, 0)
+					for _, x := range xs {
+						acc = in.B.Add(acc, in.B.Ite(in.B.Eq(x, e), in.B.Const(8, 1), in.B.Const(8, 0)))
+					}
+					return acc
+				}
+				var ax []*sym.Term
+				for j := range res {
+					var any []*sym.Term
+					for _, e := range elems {
+						any = append(any, in.B.Eq(res[j], e))
+					}
+					ax = append(ax, in.B.Or(any...))
+				}
+				for _, e := range elems {
+					ax = append(ax, in.B.Eq(count(elems, e), count(res, e)))
+				}
+				for j := 0; j+1 < len(res); j++ {
+					ax = append(ax, in.rankLess(in.rankOf(res[j]), in.rankOf(res[j+1]), true))
+				}
+				for _, e := range elems {
+					in.rankOf(e)
+				}
+				in.addPC(in.B.And(ax...))
+				for j := range res {
+					in.store(s.Arr.Kids[s.Off+j], &SymStr{Atom: res[j]})
+				}
+			}
 			for i := 0; i < s.Len; i++ {
 				in.lastSorted.vals = append(in.lastSorted.vals, in.load(s.Arr.Kids[s.Off+i]))
 			}
